@@ -846,6 +846,32 @@ def run(ctx):
     bd_lines += ["void bl%d(int x) { if (x) { %s } else { L%d: ; %s } switch (x) { case 1: ; %s } }" % (j, d_, j, d_, d_) for j, d_ in enumerate(BLOCKDECLS[::3])]
     progs.append(("blockdecl", "c11", "\n".join(bd_lines) + "\n"))
 
+    # the specifiers of a declaration in ANY order (6.7p1) around a tag DECLARATION (a body): every storage class, qualifier, function and
+    # alignment specifier before and after the body, at file scope, in a block, in a member list and in a parameter list; one per line
+    so_lines, n_ = [], 0
+    TAGS_ = ["struct S%d { int m; }", "union S%d { int m; }", "enum S%d { K%d }", "struct { int m%d; }", "enum { K%d }", "struct S%d { struct { int a; } const i; }"]
+    TRAIL_ = ["static", "extern", "typedef", "register", "auto", "_Thread_local static", "static _Thread_local", "const", "volatile", "const volatile", "_Alignas(8)", "_Atomic",
+              "static const", "const static", "const _Alignas(16) volatile", "__attribute__((unused)) static", "static __attribute__((unused))", "extern const"]
+    LEAD_ = ["", "const ", "static ", "_Alignas(8) "]
+    for tg in TAGS_:
+        for tr in TRAIL_:
+            for ld in LEAD_:
+                if ld.strip() and (ld.strip() in tr or ("static" in ld and any(k in tr for k in ("extern", "typedef", "register", "auto")))):
+                    continue
+                n_ += 1
+                t_ = tg.replace("%d", str(n_))
+                so_lines.append("%s%s %s so%d, *sp%d;" % (ld, t_, tr, n_, n_))
+                n_ += 1
+                t_ = tg.replace("%d", str(n_))
+                so_lines.append("void sb%d(void) { %s%s %s so%d; }" % (n_, ld, t_, tr, n_))
+        for tr in ("const", "volatile", "_Alignas(8)", "_Atomic", "const _Alignas(8)"):
+            n_ += 1
+            so_lines.append("struct O%d { %s %s x; int y; };" % (n_, tg.replace("%d", str(n_)), tr))
+        for tr in ("static", "extern", "static inline", "inline static", "_Noreturn static", "extern inline"):
+            n_ += 1
+            so_lines.append("%s %s sf%d(void);" % (tg.replace("%d", str(n_)), tr, n_))
+    progs.append(("specorder", "c11", "\n".join(so_lines) + "\n"))
+
     def gcc_ok(p):
         fam, std, text = p
         # c11: plain acceptance; older dialects: pedantic errors ON (no -w), so that C11-only keywords are not let through as extensions
@@ -858,7 +884,7 @@ def run(ctx):
     good = [p for p, (ok, _) in zip(progs, oks) if ok]
     # typedgen: gcc rejects single lines on purpose; keep the lines it accepts
     for p, (ok, err) in zip(progs, oks):
-        if not ok and p[0] in ("typedgen", "declforms", "blockdecl"):
+        if not ok and p[0] in ("typedgen", "declforms", "blockdecl", "specorder"):
             bad = set(int(m.group(1)) for m in re.finditer(r"<stdin>:(\d+):\d+: error", err))
             keep = [l for i, l in enumerate(p[2].split("\n"), 1) if i not in bad]
             good.append((p[0], p[1], "\n".join(keep) + "\n"))
